@@ -860,3 +860,89 @@ Example gate_debug_renders_hide_each_other :
   map observed (gs_ts (grun true [0; 0; 0; 1; 1; 1; 0; 0; 0; 1; 1; 1] (ginit [] ts)))
   = [Some (B "a", None); Some (B "b", Some 1)].
 Proof. vm_compute. reflexivity. Qed.
+
+(* ------------------------------------------------------------------ Part 2c: context-aware template functions *)
+
+(* binding a function to the caller's context on every use writes nothing shared *)
+Lemma cstep_reads_only : reads_only (cstep false).
+Proof.
+  intros h r h' r' H. unfold cstep in H.
+  destruct (c_pc r) as [[|f rest]|f rb rest| |]; simpl in H; try discriminate.
+  - inversion H; reflexivity.
+  - destruct (lookup f (cs_funcs h)); inversion H; reflexivity.
+  - destruct (lookup f (cs_funcs h)); inversion H; reflexivity.
+Qed.
+
+(* a render alone computes the spec of ITS context (and stays there) *)
+Lemma ctx_alone h c k : forall code a,
+  cresult (snd (alone (cstep false) (S (length code) + k) h (mkC c a (CRun code)))) =
+  Some (cspec (cs_funcs h) c code a).
+Proof.
+  induction code as [|f rest IH]; intros a.
+  - simpl. rewrite alone_stuck by reflexivity. reflexivity.
+  - change (S (length (f :: rest)) + k) with (S (S (length rest) + k)).
+    cbn [alone cspec]. unfold cstep at 1. cbn [c_pc c_ctx c_acc].
+    destruct (lookup f (cs_funcs h)) as [g|] eqn:El.
+    + apply IH.
+    + rewrite alone_stuck by reflexivity. reflexivity.
+Qed.
+
+(* any number of renders, each with its own context, under ANY schedule that gives render i
+   enough steps: render i returns what its own context determines, and the shared state is
+   as it was *)
+Lemma ctx_engine_own_context sched h l i c a code :
+  nth_error l i = Some (mkC c a (CRun code)) ->
+  length code < count i sched ->
+  option_map cresult (nth_error (rs (run (cstep false) sched (mkSys h l))) i) =
+    Some (Some (cspec (cs_funcs h) c code a))
+  /\ sh (run (cstep false) sched (mkSys h l)) = h.
+Proof.
+  intros Hi Hn. split.
+  - rewrite (interleave_ro _ _ _ cstep_reads_only sched h l i _ Hi). cbn [option_map].
+    replace (count i sched) with (S (length code) + (count i sched - S (length code))) by lia.
+    rewrite ctx_alone. reflexivity.
+  - apply (shared_unchanged_ro _ _ _ cstep_reads_only sched (mkSys h l)).
+Qed.
+
+(* a concrete table: every function appends the digit of the context it is bound to *)
+Definition cx_digit : provider := fun c a => (a * 10 + c)%Z.
+Definition cx_funcs : list (bytes * provider) :=
+  [(B "first", cx_digit); (B "who", cx_digit); (B "gate", cx_digit)].
+Definition cx_shared : cshared := mkCS cx_funcs None [].
+Definition cx_code : list bytes := [B "first"; B "who"; B "gate"; B "who"].
+Definition cx_renders : list cstate := [new_crender 1 cx_code; new_crender 2 cx_code; new_crender 3 [B "who"; B "nosuch"]].
+
+Example ctx_engine_example :
+  map cresult (rs (run (cstep false) (round_robin 3 6) (mkSys cx_shared cx_renders))) =
+  [Some (Some 1111%Z); Some (Some 2222%Z); Some None].
+Proof. vm_compute. reflexivity. Qed.
+
+(* the memoising variant, one render AFTER the other: nothing to see *)
+Example ctx_memo_sequential_is_right :
+  map cresult (rs (run (cstep true) (repeat 0 9 ++ repeat 1 9 ++ repeat 2 9) (mkSys cx_shared cx_renders))) =
+  [Some (Some 1111%Z); Some (Some 2222%Z); Some None].
+Proof. vm_compute. reflexivity. Qed.
+
+(* the memoising variant, overlapping: render 0 is inside the provider of "who" (it owns the
+   memo and missed), render 1 takes the memo over and runs up to its second who(), render 0
+   stores ITS binding into the memo that is now render 1's, render 1 calls who() *)
+Definition cx_sched : list nat := [0; 0; 0; 1; 1; 1; 1; 1; 1; 0; 1; 1; 0; 0; 0; 0; 0].
+
+Example ctx_memo_interference :
+  map cresult (rs (run (cstep true) cx_sched (mkSys cx_shared (firstn 2 cx_renders)))) =
+  [Some (Some 1111%Z); Some (Some 2221%Z)].
+Proof. vm_compute. reflexivity. Qed.
+
+(* so the statement of [ctx_engine_own_context] is false for an engine that keeps bound
+   functions in the shared template set *)
+Lemma ctx_memo_refuted :
+  exists sched h l i c a code,
+    nth_error l i = Some (mkC c a (CRun code)) /\
+    length code < count i sched /\
+    option_map cresult (nth_error (rs (run (cstep true) sched (mkSys h l))) i) <>
+      Some (Some (cspec (cs_funcs h) c code a)).
+Proof.
+  exists cx_sched, cx_shared, (firstn 2 cx_renders), 1, 2%Z, 0%Z, cx_code.
+  split; [reflexivity|]. split; [vm_compute; lia|].
+  vm_compute. discriminate.
+Qed.
